@@ -207,6 +207,17 @@ func EnumPDFTokens(img []byte) []Fault {
 					out = append(out, Fault{Layer: "token", Kind: "replace", A: int64(i), B: int64(j - i), S: bn})
 				}
 			}
+			// two neighbouring numbers are usually (first, count), (offset, generation) or a
+			// range: both extreme at once
+			if j < n && img[j] == ' ' && j+1 < n && img[j+1] >= '0' && img[j+1] <= '9' {
+				e := j + 1
+				for e < n && img[e] >= '0' && img[e] <= '9' {
+					e++
+				}
+				for _, pv := range []string{"2147483647 2147483647", "0 4294967295", "4294967295 1", "-1 -1"} {
+					out = append(out, Fault{Layer: "token", Kind: "replace", A: int64(i), B: int64(e - i), S: pv})
+				}
+			}
 			i = j
 		case c == '<' && i+1 < n && img[i+1] == '<':
 			out = append(out, Fault{Layer: "token", Kind: "replace", A: int64(i), B: 2, S: "<"}, Fault{Layer: "token", Kind: "replace", A: int64(i), B: 2, S: ""},
@@ -225,6 +236,22 @@ func EnumPDFTokens(img []byte) []Fault {
 			if j < n && img[j] == '>' {
 				for _, hv := range []string{"<FFFFFFFF>", "<>", "<FFFFFFFFFFFFFFFF>", "<0>", "<FFFF>", "<00000000>"} {
 					out = append(out, Fault{Layer: "token", Kind: "replace", A: int64(i), B: int64(j + 1 - i), S: hv})
+				}
+				// two neighbouring hex strings are usually the ends of a range: both extreme
+				k := j + 1
+				for k < n && (img[k] == ' ' || img[k] == '\n' || img[k] == '\r') {
+					k++
+				}
+				if k < n && img[k] == '<' && k+1 < n && isHex(img[k+1]) {
+					e := k + 1
+					for e < n && (isHex(img[e]) || img[e] == ' ') {
+						e++
+					}
+					if e < n && img[e] == '>' {
+						for _, pv := range []string{"<FFFFFFFF> <FFFFFFFF>", "<FFFFFF00> <FFFFFFFF>", "<00> <FFFFFFFF>", "<FFFF> <0000>"} {
+							out = append(out, Fault{Layer: "token", Kind: "replace", A: int64(i), B: int64(e + 1 - i), S: pv})
+						}
+					}
 				}
 				out = append(out, Fault{Layer: "token", Kind: "replace", A: int64(i), B: 1, S: ""})
 				i = j + 1
